@@ -15,17 +15,23 @@ RULE = ("random PEP 508 formula trees (or-lists of and-lists of atoms / parenthe
         "from op+rhs is not the one written); markers nested 50..300 parentheses deep (redundant, right-, left-nested, zig-zag) with the value "
         "the formula must have; non-ASCII word characters placed next to keywords and variable names; environments with repeated keys, keys "
         "that name no variable, values with backslash / newline / NUL; a DETECTED python_full_version ending in '+' (platform.python_version "
-        "patched); markers reached through Requirement(...).marker.  non-trivial = the marker was accepted and "
+        "patched); markers reached through Requirement(...).marker; operands of 4300 digits (and, with finding D10 registered, 4301 / 5000).  non-trivial = the marker was accepted and "
         "evaluation returned a bool or UndefinedComparison; distinct by (text, environment)")
 ASSUMPTIONS = [
     "environment values are str (None only for 'extra'); lone surrogates never occur",
     "quoted strings containing a backslash are outside the modelled domain (ast.literal_eval is an oracle): the model answers '?' and "
     "only 'no foreign exception' is checked there",
-    "canonicalize_name on non-ASCII upper-case letters (str.lower beyond ASCII) is not modelled; generators use ASCII plus lower-case e-acute",
+    "canonicalize_name beyond ASCII: the name model lowers ASCII letters, U+0130 and U+212A only; generated marker texts keep other non-ASCII "
+    "cased letters (UNI_WORD: E-acute, capital sigma ...) out of quoted literals; the law stream law-extra-unicode compares extra names "
+    "holding such letters against the harness's own folding, not against the model",
+    "the model has no digit limit: operands with a run of more than 4300 digits are generated only in the digit-limit-4301/5000 streams, where "
+    "a differing answer is the registered finding D10 (matcher match_c07_d10); every other stream keeps digit runs below 50",
 ]
 TRUSTED_EXTRA = [
     "ast.literal_eval on a quoted token without backslash = its body, failing exactly on NUL/LF/CR (re-checked by the law 'law.k.literaleval': code points below U+3000 in the quick tier, all of them in the thorough tier)",
     "Specifier(...) and Specifier.contains(..., prereleases=True) as modelled in coq/Spec/SpecContains.v (validated by the C03 check)",
+    "the PEP 440 right-hand sides of C07_specifier_comparison_is_pep440 / C07_agrees_with_contains_spec / C07_ordering_operators (SpecSem.sem, "
+    "SpecOps.le/ge/lt/gt_spec) are the spec functions of the C03 check; no marker stream evaluates them - the marker streams run eval_op only",
     "default_environment(): the 11 detected values are an input of the model (read from the implementation interpreter at generation time)",
 ]
 
@@ -60,12 +66,22 @@ def match_deep_nesting(case, impl, model):
     return model is None or model in ("T", "F", "U") or model.startswith("S")
 
 
-def match_eq_absorbed(case, impl, model):
-    """Proposed finding (judgement call): '<', '>' or '==' written with a right operand "=V" is evaluated as '<=', '>=' or '===' on V
-    (the code concatenates operator and operand); under PEP 508 the right operand is no version and the string operator applies."""
-    if case.cmd != "law.k.pep508op" or not isinstance(impl, str) or "right operand is not a version" not in impl: return False
-    l, op, r = case.args
-    return op in ("<", ">", "==") and r.startswith("=")
+def long_digit_run(s, n=4301):
+    run = 0
+    for c in s:
+        run = run + 1 if c.isdigit() else 0
+        if run >= n: return True
+    return False
+
+
+def match_c07_d10(case, impl, model):
+    """D10 seen through Marker.evaluate: an operand (literal or environment value) with a run of more than 4300 digits is no Version for the
+    real code (int() digit limit -> InvalidVersion since /repo 71d4b23), so _eval_op answers with the string operator / UndefinedComparison,
+    while the model (no digit limit) answers by PEP 440 comparison.  Instance = k.eval, a digit run >= 4301 in the marker text or in an
+    environment entry, BOTH sides answered (no exception may escape any more), and the answers differ."""
+    if case.cmd != "k.eval" or impl == model: return False
+    if impl not in ("T", "F", "U") or model not in ("T", "F", "U"): return False
+    return any(long_digit_run(a) for a in [case.args[0]] + list(case.args[2:]))
 
 
 def _registered(name):
@@ -243,12 +259,31 @@ def streams(rng, tier):
         s = G.render(rng, f)
         out.append(Case("law-req-eval", "law.k.reqeval", [s, rng.choice(G.REQ_PREFIXES), json.dumps(G.env_for(rng, f))], kind="law"))
 
-    # 11. (only once the finding is registered) the PEP 508 reading of a right operand that is no version
-    if _registered("match_eq_absorbed"):
-        for l in SWEEP_L:
-            for op in ["<", ">", "==", "<=", ">=", "!="]:
-                for r in ["=3.8", "=1.0", "=a", "= 3.8"]:
-                    if '"' not in l: out.append(Case("law-pep508-op", "law.k.pep508op", [l, op, r], kind="law"))
+    # 11. operands at and beyond int()'s digit limit (4300): at 4300 digits model and implementation must agree; beyond it the real
+    #     Version() rejects the operand and the string operator answers (finding D10, matcher match_c07_d10) - generated once registered
+    def big(n):
+        return ["9" * n, "1" + "0" * (n - 1), "1." + "0" * n, "1.0.post" + "7" * n, "2!" + "3" * n + ".1", "1.0+" + "5" * n, "1." + "4" * n + ".*"]
+    small = ["2", "10", "1.0", "1", "9" * 40, "1.0.post1", "3.8", "1.*"]
+    sizes = [4300] + ([4301, 5000] if _registered("match_c07_d10") else [])
+    for n in sizes:
+        nm = "digit-limit-%d" % n
+        combos = [(b, o, op) for b in big(n) for o in small + [b, big(n)[0]] for op in G.OPS]
+        # the extracted model needs about half a second per such case (binary arithmetic on 14000-bit numbers): a sample
+        for b, o, op in [c for c in rng.sample(combos, 18 if q else 160)]:
+            if True:
+                if True:
+                    l, r = (b, o) if rng.random() < 0.5 else (o, b)
+                    env = G.rand_env(rng)
+                    shape = rng.choice(["ll", "vl", "lv", "vv", "el"])
+                    if shape == "ll": s = '"%s" %s "%s"' % (l, op, r)
+                    elif shape == "vl": s = 'python_version %s "%s"' % (op, r); env["python_version"] = l
+                    elif shape == "lv": s = '"%s" %s python_full_version' % (l, op); env["python_full_version"] = r
+                    elif shape == "vv": s = 'python_version %s implementation_version' % op; env["python_version"] = l; env["implementation_version"] = r
+                    else: s = 'extra %s "%s"' % (op, r); env["extra"] = l
+                    out.append(Case(nm, "k.eval", [s, "M"] + G.env_args(env)))
+        d2 = dict(defaults); d2["python_full_version"] = "3." + "1" * n + "+"          # a detected value needing the repair
+        for op in ["==", "<"] if q else ["==", ">=", "<", "~=", "==="]:
+            out.append(Case(nm, "k.eval", ['python_full_version %s "3.%s+local"' % (op, "1" * n), "N"] + G.env_args({}, d2)))
 
     # the literal_eval oracle boundary, per code point
     if q: out.append(Case("law-literal-eval", "law.k.literaleval", ["0", str(0x3000)], kind="law"))
